@@ -164,8 +164,20 @@ func VerifC35_History() {
 	vs := NewVoteSet("chain", 1, 0, PrecommitType, vals)
 	verifC35Observe(vs, m)
 
-	for s, n := 0, verifC35Steps(); s < n; s++ {
-		kind := verifChoose("step", 19)
+	// quick: every 3-step history over all 19 step kinds, and every 4-step
+	// history over a reduced alphabet (validators 0 and 1 voting for A or B,
+	// peer 0 claiming A or B); thorough: every 4-step history over all kinds
+	steps, reduced := verifC35Steps(), false
+	if !verifThorough() && verifChoose("alphabet", 2) == 1 {
+		steps, reduced = 4, true
+	}
+	for s, n := 0, steps; s < n; s++ {
+		kind := 0
+		if reduced {
+			kind = []int{0, 1, 3, 4, 17, 18}[verifChoose("step", 6)]
+		} else {
+			kind = verifChoose("step", 19)
+		}
 		switch {
 		case kind < 9: // a well-formed, correctly signed vote
 			v, b := kind/3, kind%3
@@ -222,7 +234,7 @@ func VerifC35_History() {
 		default: // peer majority claim: peer 0 claims A (17) or B (18); a second, different claim of the same peer is refused
 			b := kind - 17
 			peerIdx := 0
-			if verifChoose("peer", 2) == 1 {
+			if !reduced && verifChoose("peer", 2) == 1 {
 				peerIdx = 1
 			}
 			err := vs.SetPeerMaj23(P2PID([]string{"p0", "p1"}[peerIdx]), verifC35Block(b))
